@@ -5,6 +5,7 @@ import (
 	"net/url"
 	"os"
 	"path/filepath"
+	"strings"
 
 	api "github.com/polydawn/go-timeless-api"
 	"github.com/polydawn/go-timeless-api/rio"
@@ -86,9 +87,21 @@ func NewController(addr api.WarehouseLocation) (warehouse.BlobstoreController, e
 	}
 }
 
+// In content-addressed mode the hash names the path segments a ware is filed under; a "hash" that
+// holds a path separator (or is "." / "..") is no address at all.
+func checkHashIsOneSegment(wareID api.WareID) error {
+	if strings.ContainsAny(wareID.Hash, "/\x00") || wareID.Hash == "." || wareID.Hash == ".." {
+		return Errorf(rio.ErrUsage, "invalid ware ID %q: the hash must be a single path segment", wareID)
+	}
+	return nil
+}
+
 func (whCtrl Controller) OpenReader(wareID api.WareID) (io.ReadCloser, error) {
 	finalPath := whCtrl.basePath
 	if whCtrl.ctntAddr {
+		if err := checkHashIsOneSegment(wareID); err != nil {
+			return nil, err
+		}
 		chunkA, chunkB, _ := util.ChunkifyHash(wareID)
 		finalPath = finalPath.
 			Join(fs.MustRelPath(chunkA)).
@@ -170,6 +183,9 @@ func (wc *WriteController) Commit(wareID api.WareID) error {
 	// Make parent dirs if necessary in content-addr mode.
 	finalPath := wc.whCtrl.basePath
 	if wc.whCtrl.ctntAddr {
+		if err := checkHashIsOneSegment(wareID); err != nil {
+			return err
+		}
 		chunkA, chunkB, _ := util.ChunkifyHash(wareID)
 		finalPath = finalPath.Join(fs.MustRelPath(chunkA))
 		if err := os.Mkdir(finalPath.String(), 0755); err != nil && !os.IsExist(err) {
